@@ -291,7 +291,7 @@ func approx(a, b float64) bool {
 	if a == b || (math.IsNaN(a) && math.IsNaN(b)) {
 		return true
 	}
-	return math.Abs(a-b) <= 1e-9*(math.Abs(a)+math.Abs(b))+1e-300
+	return math.Abs(a-b) <= 1e-9*(math.Abs(a)+math.Abs(b))+1e-12 // log-scale parameters: absolute tolerance
 }
 func distDiff(a, b DistT, path string) string {
 	if a.Fam != b.Fam {
@@ -476,11 +476,11 @@ func genSimple(r *Rng) CfgRecipe {
 	case "FGev", "FGPareto":
 		c.Ps = []float64{genAny(r), genPos(r), genAny(r)}
 	case "FLaplace":
-		c.Ps = []float64{genAny(r), genAny(r)}
+		c.Ps = []float64{genAny(r), genPos(r)}
 	case "FNegBinomial":
 		c.Ps = []float64{genPos(r), genProb(r)}
 	case "FPowerLaw":
-		c.Ps = []float64{genPos(r), genPos(r) * []float64{1, -1}[r.Intn(2)]}
+		c.Ps = []float64{[]float64{1.5, 2, 3.25, 1.0000000000000002, 1e3}[r.Intn(5)], genPos(r)}
 	}
 	return c
 }
